@@ -72,7 +72,18 @@ func h64(b []byte) uint64 { return core.HashBytes(0, b) }
 
 func hs(s string) uint64 { return core.HashStr(0, s) }
 
-var c19Kinds = []string{"decode", "encode", "cipher1", "cipher2", "cipher3", "mac1", "mac2", "mac3", "accessor", "ident", "lists", "misc", "qos", "pco", "uepolicy", "count-alloc", "shared-encode", "shared-getters", "handoff", "zones"}
+var c19Kinds = []string{"decode", "encode", "cipher1", "cipher2", "cipher3", "mac1", "mac2", "mac3", "accessor", "ident", "lists", "misc", "qos", "pco", "uepolicy", "count-alloc", "shared-encode", "shared-getters", "handoff", "zones", "mac0", "getters"}
+
+// scr overwrites a slice the library RETURNED to this goroutine (after its digest was
+// taken): the memory is the caller's. If the library handed the same memory to another
+// goroutine as well, the two writes race.
+func scr(bs ...[]byte) {
+	for _, b := range bs {
+		for i := range b {
+			b[i] ^= 0x5a
+		}
+	}
+}
 
 // c19Handoff is the receive-loop pattern: decode into a receiver variable, hand
 // the decoded VALUE to another goroutine, decode the next PDU into the same
@@ -111,7 +122,9 @@ func c19Run(sh *c19Shared, it c19Item) (res uint64) {
 			return hs(err.Error())
 		}
 		out, err := m.PlainNasEncode()
-		return h64(out) ^ hs(fmt.Sprint(err))
+		d := h64(out) ^ hs(fmt.Sprint(err))
+		scr(out)
+		return d
 	case "encode":
 		def := sh.gmm[r.Intn(len(sh.gmm))]
 		pl := refcodec.RandomPlan(def, r, r.Intn(6), r.Intn(6))
@@ -126,7 +139,30 @@ func c19Run(sh *c19Shared, it c19Item) (res uint64) {
 			return hs(err.Error())
 		}
 		out, err := m.PlainNasEncode()
-		return h64(out) ^ hs(fmt.Sprint(err))
+		d := h64(out) ^ hs(fmt.Sprint(err))
+		scr(out)
+		return d
+	case "getters":
+		// the text getters of a mobile identity built without the library: the very first
+		// library call of this item is a getter
+		mcc, mnc := digits(r, 3), digits(r, 2+r.Intn(2))
+		e := nasType.NewMobileIdentity5GS(0)
+		w := refconv.GutiWire(mcc, mnc, r.Uint32()&0xffffff, r.Uint32())
+		if r.Bool() {
+			w = refconv.SuciWire(mcc, mnc, digits(r, 2), 0, 1, digits(r, 10), nil)
+		}
+		e.SetLen(uint16(len(w)))
+		e.SetMobileIdentity5GSContents(w)
+		acc := hs(e.GetPlmnID()) ^ hs(e.GetMCC())<<1 ^ hs(e.GetMNC())<<2 ^ hs(e.Get5GGUTI()) ^ hs(e.GetSUCI())
+		s1, s2, e1 := e.GetMobileIdentity()
+		return acc ^ hs(s1) ^ hs(s2) ^ hs(fmt.Sprint(e1)) ^ hs(nasConvert.PlmnIDToString(w[1:4]))
+	case "mac0":
+		// the null integrity algorithm: every caller gets its own four octets
+		mac, err := security.NASMacCalculate(0, sh.keys[r.Intn(3)], uint32(r.Intn(4)), uint8(r.Intn(2)), uint8(r.Intn(2)), r.Bytes(r.Range(1, 64)))
+		d := h64(mac) ^ hs(fmt.Sprint(err))
+		scr(mac)
+		mac2, _ := security.NASMacCalculate(0, sh.keys[0], 0, 0, 0, []byte{1})
+		return d ^ h64(mac2)<<1
 	case "cipher1", "cipher2", "cipher3":
 		// keys, counts and bearers come from small pools: equal parameter VALUES on
 		// different goroutines are ordinary use (uplink/downlink of one context)
@@ -151,7 +187,9 @@ func c19Run(sh *c19Shared, it c19Item) (res uint64) {
 			msg = c19Place(sh, it.region, msg)
 		}
 		mac, err := security.NASMacCalculate(it.kind[3]-'0', key, uint32(r.Intn(4)), uint8(r.Intn(2)), uint8(r.Intn(2)), msg)
-		return h64(mac) ^ h64(msg) ^ hs(fmt.Sprint(err))
+		d := h64(mac) ^ h64(msg) ^ hs(fmt.Sprint(err))
+		scr(mac)
+		return d
 	case "accessor":
 		var g nasType.GUTI5G
 		copy(g.Octet[:], r.Bytes(11))
@@ -207,7 +245,9 @@ func c19Run(sh *c19Shared, it c19Item) (res uint64) {
 		e.SetSNSSAIValue(sn)
 		ms, err := nasConvert.RequestedNssaiToModels(e)
 		rj := nasConvert.RejectedNssaiToNas([]models.Snssai{{Sst: 1}}, []models.Snssai{{Sst: 2, Sd: "010203"}})
-		return h64(sn) ^ h64(tb) ^ h64(lb) ^ uint64(len(ms)) ^ hs(fmt.Sprint(err)) ^ h64(rj.Buffer)
+		d := h64(sn) ^ h64(tb) ^ h64(lb) ^ uint64(len(ms)) ^ hs(fmt.Sprint(err)) ^ h64(rj.Buffer)
+		scr(tb, lb, rj.Buffer)
+		return d
 	case "misc":
 		t3 := nasConvert.GPRSTimer3ToNas(r.Intn(1116000))
 		t2 := nasConvert.GPRSTimer2ToNas(r.Intn(11160)) // odd values take the error-log path
@@ -217,7 +257,9 @@ func c19Run(sh *c19Shared, it c19Item) (res uint64) {
 		ts := nasConvert.EncodeUniversalTimeAndLocalTimeZoneToNas(time.Unix(946684800+int64(r.Intn(3000000000)), 0).UTC())
 		back := nasConvert.DecodeUniversalTimeAndLocalTimeZone(ts)
 		psi := nasConvert.PSIToBuf(nasConvert.PSIToBooleanArray(r.Bytes(2)))
-		return uint64(t3)<<8 ^ uint64(t2) ^ h64(a.Octet[:]) ^ uint64(z.Octet)<<16 ^ h64(nm.Buffer) ^ uint64(back.Unix()) ^ h64(psi)
+		d := uint64(t3)<<8 ^ uint64(t2) ^ h64(a.Octet[:]) ^ uint64(z.Octet)<<16 ^ h64(nm.Buffer) ^ uint64(back.Unix()) ^ h64(psi)
+		scr(psi, nm.Buffer)
+		return d
 	case "qos":
 		model := genRules(r, 1+r.Intn(3), r.Intn(18))
 		lib := libRules(model)
@@ -226,7 +268,9 @@ func c19Run(sh *c19Shared, it c19Item) (res uint64) {
 		err2 := back.UnmarshalBinary(b)
 		var fd nasType.QoSFlowDescs
 		err3 := fd.UnmarshalBinary(refconv.SerializeDescs(genDescs(r, 2)))
-		return h64(b) ^ uint64(len(back)) ^ uint64(len(fd))<<4 ^ hs(fmt.Sprint(err, err2, err3))
+		d := h64(b) ^ uint64(len(back)) ^ uint64(len(fd))<<4 ^ hs(fmt.Sprint(err, err2, err3))
+		scr(b)
+		return d
 	case "handoff":
 		switch r.Intn(4) {
 		case 0:
@@ -262,7 +306,9 @@ func c19Run(sh *c19Shared, it c19Item) (res uint64) {
 		b := p.Marshal()
 		q := nasConvert.NewProtocolConfigurationOptions()
 		err := q.UnMarshal(b)
-		return h64(b) ^ uint64(len(q.ProtocolOrContainerList)) ^ hs(fmt.Sprint(err))
+		d := h64(b) ^ uint64(len(q.ProtocolOrContainerList)) ^ hs(fmt.Sprint(err))
+		scr(b)
+		return d
 	case "uepolicy":
 		lc, err := libSubLists(genSubs(r, 1+r.Intn(3)))
 		if err != nil {
@@ -271,7 +317,9 @@ func c19Run(sh *c19Shared, it c19Item) (res uint64) {
 		b, err := lc.MarshalBinary()
 		var back uePolicyContainer.UEPolicySectionManagementListContent
 		err2 := back.UnmarshalBinary(b)
-		return h64(b) ^ uint64(len(back)) ^ hs(fmt.Sprint(err, err2))
+		d := h64(b) ^ uint64(len(back)) ^ hs(fmt.Sprint(err, err2))
+		scr(b)
+		return d
 	case "count-alloc":
 		var cnt security.Count
 		cnt.Set(uint16(r.Uint32()), r.Byte())
